@@ -46,6 +46,26 @@ NEEDS = {
  "c20_m1": ("fields.py format_multipart_header_param fast path checks only '\"' and LF", "name/filename with a bare CR and neither LF nor a quote"),
  "c20_m2": ("fields.py RequestField.render_headers pops from self.headers", "the same RequestField object encoded twice"),
 }
+# missed by the check as it stood when the change arrived -> what was added to the check (then re-run: detected)
+STRENGTHENED = {
+ "c01_m1": "C01 op alphabet: PUT with a body whose seek() fails (any second attempt ends in UnrewindableBodyError)",
+ "c02_m2": "C02 thread program 'streaming response closed unread' + on_close hook: a socket closed by a thread that does not hold its lease",
+ "c03_m1": "simnet honours MSG_PEEK (the change peeks); the existing unsolicited-bytes behaviours then expose it",
+ "c03_m2": "C03 server behaviour 'broken chunk-size line, gateway error page arrives late'",
+ "c04_m2": "C04 outcome alphabet: read-phase OSError that is not a ConnectionError (EHOSTUNREACH)",
+ "c05_m1": "C05 placement: explicit retries=None with the request + constructor-level policy",
+ "c05_m2": "C05 family F3: first attempt dies after the request was received, the retried attempt gets the redirect",
+ "c06_m1": "C06 container 'manager defaults with credentials + request headers made of strip-set fields only' and clause header-appeared-after-redirect",
+ "c07_m2": "C07 certificate/host pair wild-suffix (asked name only starts with something the wildcard covers); C08 detected it unchanged",
+ "c08_m2": "C08 pin transformations: the true digest with a non-hex, non-colon character inserted (whitespace, '-', '_', '0x', ...)",
+ "c09_m1": "C09 redirect family: one caller request that travels forwarded and tunnelled (proxy headers must not enter the tunnel)",
+ "c09_m2": "C09 cases with one SSLContext shared by the proxy and destination layers + proxy_assert_hostname; C07 detected it unchanged",
+ "c10_m2": "C10 HTTP/2 name alphabet: code points whose case mappings land in ASCII (U+212A, U+0130, U+017F)",
+ "c11_m1": "C11 body kind: stream whose read(n) returns fewer than n bytes before EOF",
+ "c12_m2": "C12 mixed programs: a stream()/read_chunked() generator left suspended, another API reads the rest",
+ "c13_m1": "C13 variant in which the peer keeps the connection open after the corrupt response",
+ "c20_m2": "C20 clause: the same field objects encoded a second time give the same bytes",
+}
 CAUGHT_BY_OTHER = {"c09_m2": ["C07", "C09"], "c07_m2": ["C07", "C08"]}
 
 def main():
@@ -79,6 +99,7 @@ def main():
                 "how": "tools/eval_mutant.sh <PID> <dir> <name> A: scratch worktree of /repo HEAD under /tmp, demo.py run with PYTHONPATH on the worktree before and after `git apply patch.diff`, whole pinned suite on the changed tree compared with the 682-test stable baseline",
             },
             "kept": bool(ok),
+            "strengthened": STRENGTHENED.get(name),
             "our_check": {"command": "VERIF_REPO=<changed tree> ./check %s --tier quick (VERIF_SEED=0 and 1)" % pid, "results": b, "detected": caught,
                           "also_detected_by": CAUGHT_BY_OTHER.get(name, [])},
         }
